@@ -29,7 +29,10 @@ def deep_round_factory(tol):
       elif isiterable(j): #XXX: fails on the above, so don't iterate them
         jtype = type(j)
         try: _args[i] = jtype(deep_round(*j)[0])
-        except TypeError: pass # can't be rebuilt (e.g. range), so don't round
+        except TypeError: # can't be rebuilt (e.g. range), so don't round
+          if isinstance(j, tuple): # ...unless it's a namedtuple
+            try: _args[i] = jtype(*deep_round(*j)[0])
+            except TypeError: pass
     for i,j in kwds.items():
       if isinstance(j, float): _kwds[i] = round(j, tol)
       elif isinstance(j, (str, unicode, type(BaseException()))): continue
@@ -39,7 +42,10 @@ def deep_round_factory(tol):
       elif isiterable(j): #XXX: fails on the above, so don't iterate them
         jtype = type(j)
         try: _kwds[i] = jtype(deep_round(*j)[0])
-        except TypeError: pass # can't be rebuilt (e.g. range), so don't round
+        except TypeError: # can't be rebuilt (e.g. range), so don't round
+          if isinstance(j, tuple): # ...unless it's a namedtuple
+            try: _kwds[i] = jtype(*deep_round(*j)[0])
+            except TypeError: pass
     return argstype(_args), _kwds
   return deep_round
 
